@@ -37,9 +37,10 @@ pub fn dgram_payload(did: u32, size: usize) -> Vec<u8> {
 }
 
 impl Node {
-    pub fn new(addr: [u8; 4], mtu: usize, nudp: usize, seed: u64) -> Node {
-        let mut dev = QDev::new(Medium::Ip, mtu);
-        let mut c = Config::new(HardwareAddress::Ip);
+    pub fn new(addr: [u8; 4], mtu: usize, nudp: usize, seed: u64, eth: bool) -> Node {
+        // `mtu` is the IP MTU; on Ethernet the device MTU is 14 octets larger
+        let mut dev = if eth { QDev::new(Medium::Ethernet, mtu + 14) } else { QDev::new(Medium::Ip, mtu) };
+        let mut c = if eth { Config::new(HardwareAddress::Ethernet(smoltcp::wire::EthernetAddress([2, 0, 0, 0, 0, addr[3]]))) } else { Config::new(HardwareAddress::Ip) };
         c.random_seed = seed;
         let mut iface = Interface::new(c, &mut dev, Instant::from_millis(0));
         iface.update_ip_addrs(|a| {
@@ -89,12 +90,21 @@ fn expected_udp(did: u32, size: usize, src: [u8; 4], dst: [u8; 4], sport: u16, d
 }
 
 pub struct Proj {
+    pub eth: bool,
     pub ident2did: HashMap<(usize, u32), u32>,
     pub sizes: HashMap<u32, (usize, u16, u16, bool)>, // did -> (size, sport, dport, is_icmp)
 }
 
 impl Proj {
     pub fn frame(&mut self, from: usize, f: &[u8]) -> Value {
+        let f = if self.eth {
+            if f.len() >= 14 && f[12] == 8 && f[13] == 6 {
+                return json!({"from": from, "arp": true, "did": -1, "frag": false, "len": f.len()});
+            }
+            &f[14.min(f.len())..]
+        } else {
+            f
+        };
         let Some(ip) = parse_ip(f) else {
             return json!({"from": from, "unparsed": true, "len": f.len()});
         };
@@ -159,8 +169,8 @@ struct World {
 }
 
 impl World {
-    fn new(mtu: usize, seed: u64) -> World {
-        World { a: Node::new(A, mtu, 2, seed), b: Node::new(B, mtu, 2, seed + 1), proj: Proj { ident2did: HashMap::new(), sizes: HashMap::new() }, now: 0, mtu }
+    fn new(mtu: usize, seed: u64, eth: bool) -> World {
+        World { a: Node::new(A, mtu, 2, seed, eth), b: Node::new(B, mtu, 2, seed + 1, eth), proj: Proj { eth, ident2did: HashMap::new(), sizes: HashMap::new() }, now: 0, mtu }
     }
     fn send_udp(&mut self, sock: usize, did: u32, size: usize, t: &mut Trace) -> bool {
         self.proj.sizes.insert(did, (size, 7000 + sock as u16, 7000 + sock as u16, false));
@@ -240,7 +250,7 @@ pub fn replay(args: &Args) {
     let mtu = if nfrags <= 3 { 576 } else { 420 };
     let per = (mtu - 20) & !7;
     for (k, sc) in sched.iter().enumerate() {
-        let mut w = World::new(mtu, 100 + k as u64);
+        let mut w = World::new(mtu, 100 + k as u64, false);
         reset_ev(&mut t, k, "tlc", 0, mtu, args);
         // datagram sizes giving exactly nfrags fragments, different last-fragment lengths per datagram
         let mut ok = true;
@@ -292,9 +302,15 @@ pub fn random(args: &Args) {
     for run in 0..runs {
         let mut rng = Rng::new(seed0.wrapping_mul(9_000_011).wrapping_add(run as u64));
         let mtu = *rng.pick(&[68usize, 100, 296, 576, 576, 1006, 1500]);
-        let mut w = World::new(mtu, rng.next());
+        let eth = rng.chance(40);
+        let mut w = World::new(mtu, rng.next(), eth);
         reset_ev(&mut t, run, "random", seed0, mtu, args);
-        let ndg = rng.range(1, 6) as u32;
+        // timeout case: the first datagram loses a fragment, the world then waits beyond the reassembly timeout and
+        // sends the others, which have to be reassembled in the slot the first one held
+        let tcase = mtu >= 100 && mtu < 1400 && rng.chance(25);
+        let mut paused = !tcase;
+        let mut forced_drop = !tcase;
+        let ndg = if tcase { rng.range(2, 5) as u32 } else { rng.range(1, 6) as u32 };
         let budget = if rng.chance(40) { Some(rng.range(1, 3) as usize) } else { None };
         let mut inflight: Vec<(i64, Vec<u8>)> = vec![]; // (arrival time, frame) towards B
         let mut back: Vec<Vec<u8>> = vec![]; // frames from B to A (echo replies), delivered in order
@@ -310,21 +326,32 @@ pub fn random(args: &Args) {
                 break;
             }
             w.now += rng.range(0, 3) as i64;
+            if inflight.is_empty() && back.is_empty() && w.a.poll_at(w.now) != 0 && w.b.poll_at(w.now) != 0 && rng.chance(4) {
+                // longer than the 60 s reassembly timeout: slots holding incomplete datagrams are given up
+                w.now += rng.range(61_000, 70_000) as i64;
+            }
             // application: send another datagram now and then (several back to back)
-            if next_did <= ndg && rng.chance(50) {
-                let burst = rng.range(1, 3);
+            if !paused && next_did > 1 && inflight.is_empty() && back.is_empty() && w.a.poll_at(w.now) != 0 && w.b.poll_at(w.now) != 0 {
+                w.now += rng.range(61_000, 70_000) as i64;
+                paused = true;
+            }
+            if next_did <= ndg && rng.chance(50) && (paused || next_did == 1) {
+                let burst = if paused { rng.range(1, 3) } else { 1 };
                 for _ in 0..burst {
                     if next_did > ndg {
                         break;
                     }
                     let maxp = fragbuf - 20 - 8;
-                    let size = match rng.below(4) {
+                    let size = match rng.below(5) {
+                        // IP length within a few octets of the IP MTU (and of the link MTU on Ethernet)
+                        4 if mtu >= 100 => (mtu - 28 - 2 + rng.below(19) as usize).min(maxp),
                         0 => rng.range(4, (mtu as u64).saturating_sub(28).max(4)) as usize,
                         1 => maxp,
                         2 => rng.range(mtu as u64, maxp as u64) as usize,
                         _ => rng.range(4, maxp as u64 + 40) as usize,
                     };
-                    if rng.chance(25) {
+                    let size = if tcase && next_did == 1 { rng.range(mtu as u64, maxp as u64) as usize } else { size };
+                    if rng.chance(25) && !(tcase && next_did == 1) {
                         w.send_ping(next_did, size.min(maxp), &mut t);
                     } else {
                         w.send_udp(rng.below(2) as usize, next_did, size, &mut t);
@@ -340,7 +367,14 @@ pub fn random(args: &Args) {
             w.a.dev.tx_budget = None;
             w.drain_recv(0, &mut t);
             for f in out {
-                let c = rng.below(100);
+                let is_arp = eth && f.len() >= 14 && f[12] == 8 && f[13] == 6;
+                let c = if is_arp { 100 } else { rng.below(100) };
+                let is_frag = { let o = if eth { 14 } else { 0 }; f.len() > o + 8 && (u16::from_be_bytes([f[o + 6], f[o + 7]]) & 0x3fff) != 0 };
+                if !forced_drop && is_frag && !is_arp {
+                    forced_drop = true;
+                    t.ev(json!({"ev":"net","fate":"drop"}));
+                    continue;
+                }
                 if c < drop_pct {
                     t.ev(json!({"ev":"net","fate":"drop"}));
                     continue;
